@@ -648,7 +648,11 @@ impl Story {
             // the temporary context, but attempt to create them globally
             // var prioritiseHigherInCallStack = _temporaryEvaluationContainer
             // != null;
-            let assigned_val = assigned_val.into_any().downcast::<Value>().unwrap();
+            let assigned_val = assigned_val.into_any().downcast::<Value>().map_err(|_| {
+                StoryError::InvalidStoryState(
+                    "Cannot assign a void value to a variable. Did you forget to 'return' a value from a function you called here?".to_owned(),
+                )
+            })?;
             self.get_state_mut()
                 .variables_state
                 .assign(var_ass, assigned_val)?;
